@@ -438,7 +438,7 @@ class Sequence(ExprList, SeqDomain):
         for m in range(M):
             vals.append(zero)
 
-        ni = self.n + list(range(self.n[-1] + 1, len(vals)))
+        ni = list(range(self.n[0], self.n[0] + len(vals)))
         return self.__class__(vals, ni)
 
     def __str__(self):
